@@ -574,7 +574,35 @@ func init() {
 		}
 		return e.st.And(cs...)
 	}
-	intrinsics["fmt.Sprint"] = func(e *Engine, fr *frame, fn *ssa.Function, args []Value) Value { return Str{S: "<fmt.Sprint>"} }
+	intrinsics["fmt.Sprint"] = func(e *Engine, fr *frame, fn *ssa.Function, args []Value) Value {
+		// one operand that is a string, nil, a bool or a concrete integer keeps its text
+		if vs, ok := args[0].(Slice); ok && len(vs.V) == 1 {
+			if ifc, ok := vs.V[0].(Iface); ok {
+				if ifc.T == nil {
+					return Str{S: "<nil>"}
+				}
+				switch v := ifc.V.(type) {
+				case Str:
+					return v
+				case *Term:
+					if b, ok := ifc.T.Underlying().(*types.Basic); ok && v.IsConst() {
+						switch {
+						case b.Kind() == types.Bool:
+							if v.Val != 0 {
+								return Str{S: "true"}
+							}
+							return Str{S: "false"}
+						case b.Info()&types.IsUnsigned != 0:
+							return Str{S: strconv.FormatUint(v.Val, 10)}
+						case b.Info()&types.IsInteger != 0:
+							return Str{S: strconv.FormatInt(v.SVal(), 10)}
+						}
+					}
+				}
+			}
+		}
+		return Str{S: "<fmt.Sprint>"}
+	}
 	intrinsics["fmt.Fprintln"] = func(e *Engine, fr *frame, fn *ssa.Function, args []Value) Value {
 		// one Write of the operands' text plus newline; only string operands keep their content
 		var s Str
